@@ -527,8 +527,10 @@ PROPS = {
             bridge_job(["InterchainTransfer/ok", "Relay/ok", "Relay/registered", "Relay/origin_trusted", "DeployRemoteInterchainToken/ok", "DeployRemoteCanonical/ok"], other_amount_control),
             ITS_TRACE,
             ITS_IND,
+            # two deployments behind the hub: conservation across the chains, unbounded amounts / messages / histories
+            {"kind": "apalache", "tiers": ["thorough"], "module": "BridgeInd", "inv": "IndInv", "refute": "NotInvariant", "refute_init": "RefuteInit"},
         ],
-        "level_text": "TLC proves custody = locked - released >= 0 with the canonical token's supply conserved, service-deployed supply changing only by outbound burns, inbound mints, the initial supply and minters' own mints, exact debit / gas / announcement on every successful outbound transfer (trusted destination, positive amount), exact credit inbound, and the frame rule, on every transition of a finite instance (all interleavings; every outbound transfer costs gas); the transitions are executed against the real service, gateway, gas service, a Stellar asset contract and the pinned interchain token; the announced payload bytes are decoded by the harness's own codec and compared field by field.  Two deployments joined by the hub (spec/Bridge.tla, MC_Bridge): value conserved across chains, remote tokens carry the home side's id and metadata; the raw bytes one deployment announced are rewrapped as the hub does and handed to the other deployment. Thorough additionally discharges, with Apalache, an inductive invariant of the service's design over unbounded amounts, message ids and histories (spec/apalache/ITSInd.tla: write-once registry with distinct token addresses, custody = locked - released >= 0, native supply = minted - burned >= 0, every message acts at most once and only when approved, from a trusted origin, for a registered token).",
+        "level_text": "TLC proves custody = locked - released >= 0 with the canonical token's supply conserved, service-deployed supply changing only by outbound burns, inbound mints, the initial supply and minters' own mints, exact debit / gas / announcement on every successful outbound transfer (trusted destination, positive amount), exact credit inbound, and the frame rule, on every transition of a finite instance (all interleavings; every outbound transfer costs gas); the transitions are executed against the real service, gateway, gas service, a Stellar asset contract and the pinned interchain token; the announced payload bytes are decoded by the harness's own codec and compared field by field.  Two deployments joined by the hub (spec/Bridge.tla, MC_Bridge): value conserved across chains, remote tokens carry the home side's id and metadata; the raw bytes one deployment announced are rewrapped as the hub does and handed to the other deployment. Thorough additionally discharges, with Apalache, an inductive invariant of the service's design over unbounded amounts, message ids and histories (spec/apalache/ITSInd.tla: write-once registry with distinct token addresses, custody = locked - released >= 0, native supply = minted - burned >= 0, every message acts at most once and only when approved, from a trusted origin, for a registered token). For two deployments joined by the hub, spec/apalache/BridgeInd.tla discharges conservation across the chains (custody at home = remote supply + everything in flight; a release is never refused for lack of custody; each message delivered at most once) as an inductive invariant.",
         "rule": "cases = transitions of the bounded TLC instance replayed against the contracts; distinct = distinct (abstract pre-state, action) pairs",
         "assumptions": ["soroban-env-host test mode implements on-chain semantics", "the harness's own ABI codec is cross-validated against Abi.tla by the C10 check", "bounds: 2 users, 2-3 tokens, amounts -1..3, gas budget 2-4 units"],
     },
